@@ -233,6 +233,21 @@ def guard_flag():
     return n_sites == 3
 
 
+def _unwrap_exact(m):
+    """the Negate branch of _ast_to_ir unwraps its operand with `type(arg) is list` (a KGCond is a list subclass and
+    is itself the operand); `isinstance(arg, list)` -> False; anything else is not understood"""
+    fn = astlib.find_func(m, "_ast_to_ir")
+    tests = []
+    for n in ast.walk(fn):
+        if isinstance(n, ast.If) and len(n.body) == 1 and ast.unparse(n.body[0]) == "arg = arg[0]":
+            tests.append(ast.unparse(n.test))
+    if tests == ["type(arg) is list"]:
+        return True
+    if tests == ["isinstance(arg, list)"]:
+        return False
+    raise ShapeError("_ast_to_ir: operand unwrapping of a monad not recognised: %r" % tests)
+
+
 def _admits_object(m):
     """the ndarray admission test of _ast_to_ir: plain isinstance (object arrays admitted) or `... and val.dtype != object`"""
     fn = astlib.find_func(m, "_ast_to_ir")
@@ -322,12 +337,12 @@ def _coq_tpl(parts):
 def _coq_tables(name, sets, bt):
     if bt is None:
         body = ("arith_ops := []; cmp_ops := []; redscan_ops := []; t_bin := []; t_cmp := []; t_red := []; t_scan := []; adm_obj := true;\n"
-                "  t_call := []; helpers_bound := false; f_call := [];\n"
+                "  t_call := []; helpers_bound := false; unwrap_exact := false; f_call := [];\n"
                 "  f_bin := []; f_cmp := []; f_neg := []; f_red := []; f_scan := []")
     else:
-        ar, cm, rs, adm = sets
+        ar, cm, rs, adm, unw = sets
         L = lambda xs: astlib.coq_list([astlib.coq_string(x) for x in xs])
-        fields = [("arith_ops", L(ar)), ("cmp_ops", L(cm)), ("redscan_ops", L(rs)), ("adm_obj", astlib.coq_bool(adm)),
+        fields = [("arith_ops", L(ar)), ("cmp_ops", L(cm)), ("redscan_ops", L(rs)), ("adm_obj", astlib.coq_bool(adm)), ("unwrap_exact", astlib.coq_bool(unw)),
                   ("t_bin", _coq_tbl(bt["binop"][0])), ("t_cmp", _coq_tbl(bt["cmp"][0])), ("t_red", _coq_tbl(bt["reduce"][0])),
                   ("t_scan", _coq_tbl(bt["scan"][0])), ("t_call", _coq_tbl(bt["call"][0])),
                   ("helpers_bound", astlib.coq_bool(bt["helpers"])), ("f_call", _coq_tpl(bt["call"][1])),
@@ -343,7 +358,7 @@ def read_tables():
         return (_set_of_consts(astlib.module_assign(m, "_ARITH_OPS"), "_ARITH_OPS"),
                 _set_of_consts(astlib.module_assign(m, "_CMP_OPS"), "_CMP_OPS"),
                 _set_of_consts(astlib.module_assign(m, "_REDUCE_SCAN_OPS"), "_REDUCE_SCAN_OPS"),
-                _admits_object(m))
+                _admits_object(m), _unwrap_exact(m))
     s, why_s = astlib.try_flag(sets)
     npt, why_n = astlib.try_flag(lambda: backend_tables("klongpy/backends/numpy_backend.py", "NumpyBackendProvider"))
     tot, why_t = astlib.try_flag(lambda: backend_tables("klongpy/backends/torch_backend.py", "TorchBackendProvider"))
@@ -446,6 +461,9 @@ def enc_expr(node):
                 return ["other"]
             return ["dy", cps(op), enc_expr(args[0]), enc_expr(args[1])]
         if ar == 1:
+            if type(args) is not list and isinstance(args, list):
+                # a conditional (KGCond, a list subclass) is itself the operand of the monad
+                return ["mc", cps(op), enc_expr(args[0])] if len(args) > 0 else ["other"]
             a = args[0] if type(args) is list else args
             return ["mo", cps(op), enc_expr(a)]
         return ["other"]
@@ -714,7 +732,7 @@ def _sync_grammar():
     except Exception:
         sets = None
     if sets:
-        ar, cm, rs, _ = sets
+        ar, cm, rs = sets[0], sets[1], sets[2]
         red = [o for o in "+*|&"] + [o for o in rs if o not in "+*|&"]
         UNARY = [("neg",)] + [("adv", o, a) for a in "/\\" for o in red]
         BINOPS = ["+", "-", "*", "%", "^", "<", ">", "="] + [o for o in ar + cm if o not in ["+", "-", "*", "%", "^", "<", ">", "="]]
@@ -1261,6 +1279,75 @@ def huge_literal_programs():
     return progs
 
 
+def cond_programs():
+    """a compilable monad applied DIRECTLY to a conditional whose condition and branches are compilable:
+    -:[c;t;e] and -(:[c;t;e]) at top level, in function bodies (globals and parameters) and as operand of other verbs"""
+    progs = []
+    conds = ["a>3", "a<b", "a=b", "(a+b)>4", "b>a*2"]
+    branches = [("b", "c"), ("a*2", "b-1"), ("a+b", "a-b")]
+    binds = [("5", "7"), ("2", "7"), ("7", "2"), ("2.5", "2.5"), ("0", "1")]
+    for cnd in conds:
+        for t, e in branches:
+            cx = ":[%s;%s;%s]" % (cnd, t, e)
+            forms = ["-" + cx, "-(" + cx + ")", "1+-" + cx, "(-" + cx + ")*2", "1,-" + cx, "-" + cx + ",1", "--" + cx]
+            for a, b in binds[:3]:
+                progs.append([("a::" + a, False), ("b::" + b, False), ("c::9", False)] + [(f, True) for f in forms])
+            progs.append([("f::{-" + cx + "}", False), ("h::{1+-(" + cx + ")}", False), ("c::9", False)] +
+                         sum([[("a::" + a, False), ("b::" + b, False), ("f()", True), ("h()", True)] for a, b in binds], []))
+        gx = ":[%s;x;y]" % cnd.replace("a", "x").replace("b", "y")
+        progs.append([("g::{-" + gx + "}", False), ("k::{(-" + gx + ")+x}", False)] +
+                     sum([[("g(%s;%s)" % (a, b), True), ("k(%s;%s)" % (a, b), True)] for a, b in binds], []))
+    return progs
+
+
+def cmp_arith_programs():
+    """arithmetic whose operands are comparisons (truth values are 0/1 INTEGERS: a sum of two counts to 2), over
+    tensors/arrays, scalars, and a memoised body rebound from scalars to vectors"""
+    progs = []
+    exprs = ["(a>b)+(a>c)", "(a>b)*(a>c)", "((a>b)+(a>c))+(b<c)", "((a>b)+(a>c))*2", "+/((a>b)+(a>c))", "(a>b)-(a<c)",
+             "(a=b)+(a=c)", "(a>b)+((a>c)*(a>b))", "-((a>b)+(a>c))", "(a>0)+(a>1)", "((a>b)+(a>c))=2"]
+    binds = [("[3 1 2 5]", "[1 1 1 1]", "[0 2 0 0]"), ("3", "1", "0"), ("[[3 1] [2 5]]", "1", "[0 2]"), ("2.5", "[1.5 3.5]", "0")]
+    for e in exprs:
+        for a, b, c in binds:
+            progs.append([("a::" + a, False), ("b::" + b, False), ("c::" + c, False), (e, True), ("1," + e, True)])
+        ex = e.replace("a", "x").replace("b", "y").replace("c", "z")
+        progs.append([("f::{" + ex + "}", False), ("f(3;1;0)", True), ("f([3 1 2 5];[1 1 1 1];[0 2 0 0])", True), ("f(3;1;0)", True)])
+        progs.append([("s::{" + e + "}", False), ("a::3", False), ("b::1", False), ("c::0", False), ("s()", True),
+                      ("a::[3 1 2 5]", False), ("s()", True), ("c::[0 2 0 0]", False), ("s()", True)])
+    return progs
+
+
+# one witness per REPAIRED finding, replayed first at every run: a regression gives a concrete replay at once
+FIXED_CORPUS = [
+    ("C05-scan-flatten", "numpy", ["a::[[1 2] [3 4]]", "+\\a", "*\\a", "a::5", "+\\a"]),
+    ("C05-memo-type-change", "numpy", ["f::{1,x*y}", "f(2;3)", 'f("ab";3)']),
+    ("C05-memo-type-change", "numpy", ["a::[1 2 3]", "+/a", "a::[]", "+/a", "*/a"]),
+    ("C05-nested-list-operands", "numpy", ["a::[1.5 [2 [3]]]", "(*/a)<0.5", "a::[1 [2 3]]", "b::0", "(-a)%(b%2)"]),
+    ("C05-power-kind", "numpy", ["a::4", "a^0.5", "a::4.0", "a^2", "a::1", "a^-1", "a::2.5", "a^a"]),
+    ("C05-divide-numpy-zero", "numpy", ["a::[1 2 3]", "(+/a)%0", "v::[3 -1 -2]", "1%+/v", "f::{(+/x)%y}", "f([1 2];0)"]),
+    ("C05-negate-conditional", "numpy", ["a::5", "b::7", "c::9", "-:[a>3;b;c]", "-(:[a>3;b;c])", "g::{-:[x>y;x;y]}", "g(2;7)", "g(7;2)"]),
+    ("C05-torch-scan-0d", "torch", ["a::[1 2 3]", "*\\(+/a)", "f::{&\\(|/x)}", "f([1 5 2])"]),
+    ("C05-torch-equal-operand", "torch", ["a::4.0", "(a=2)>0", "(&/(2=a))<3"]),
+    ("C05-torch-reduce-axis", "torch", ["a::[[1 2] [3 4]]", "f::{+/a}", "f()", "*/a"]),
+    ("C05-negate-conditional", "torch", ["g::{-:[x>y;x;y]}", "g(2;7)", "g(7;2)"]),
+]
+
+
+def check_fixed_corpus(chk):
+    bad = []
+    for backend in ("numpy", "torch"):
+        items = [(fid, st) for fid, be, st in FIXED_CORPUS if be == backend]
+        progs = [[(s, True) for s in st] for _, st in items]
+        normal, stub = run_diff(progs, backend, nproc=1)
+        for (fid, st), a, b in zip(items, normal, stub):
+            chk.count("evaluations", len(a))
+            chk.count("fixed_corpus_witnesses")
+            if a != b:
+                bad.append({"kind": "regression of repaired finding " + fid, "backend": backend, "position": "fixed corpus", "expression": fid,
+                            "program": st, "with_compiler": a, "compile_expr_stubbed": b})
+    return bad
+
+
 def check_targeted(chk, backend, progs, label):
     normal, stub = run_diff(progs, backend, nproc=2)
     bad = None
@@ -1300,15 +1387,19 @@ def run(tier, replay=None):
         proof["error"] = "forbidden declarations: %r" % hits
         proof["broken"] = hits[0]
     gone = replay_findings(chk)
+    regress = check_fixed_corpus(chk)
     bad_corr, bad_prop_i = check_corr(chk, rng, tier)
     bad = check_diff(chk, rng, tier, "numpy")
     bad_t = check_diff(chk, rng, tier, "torch") if tier == "thorough" else None
     targeted = []
     # one process per mode for the twins: a process-wide compilation cache would be shared inside it
     for backend, progs, label in (("numpy", twin_programs(), "literal_kind_twins"), ("numpy", atom_programs(), "atom_operand"),
-                                  ("numpy", huge_literal_programs(), "huge_literal"), ("torch", atom_programs() + twin_programs()[::7], "atom_operand")):
+                                  ("numpy", huge_literal_programs(), "huge_literal"), ("numpy", cond_programs(), "monad_of_conditional"),
+                                  ("numpy", cmp_arith_programs(), "arithmetic_of_comparisons"),
+                                  ("torch", atom_programs() + twin_programs()[::7] + cond_programs()[::3], "atom_operand"),
+                                  ("torch", cmp_arith_programs(), "arithmetic_of_comparisons")):
         targeted.append(check_targeted(chk, backend, progs, label))
-    for bp in [bad, bad_t] + targeted:
+    for bp in regress + [bad, bad_t] + targeted:
         if bp is not None:
             chk.violation("the value of an expression depends on whether the expression compiler handled it (%s backend, %s position): %s"
                           % (bp["backend"], bp["position"], bp["expression"]), bp)
